@@ -192,6 +192,17 @@ def gen_pairs(ctx):
              (("cmp", "f", [V(0), V(0)]), ("cmp", "f", [V(1), ("cmp", "g", [V(1)])])),
              (V(0), ("cmp", "g", [V(0)])), (("cmp", "h", [V(0), V(1), V(0)]), ("cmp", "h", [("cmp", "g", [V(1)]), ("cmp", "g", [V(0)]), V(1)])),
              (("int", 1), norm_float(1.0)), (("int", 2 ** 70), ("calc", "2^70", ("int", 2 ** 70))), (norm_float(-0.0), norm_float(0.0))]
+    # numbers of equal (or equal after rounding) value but different type, in BOTH orders and nested: they never unify
+    # (added after the seeded change seeded/C10-bigint-float-unify, which made `Float = BigInteger` succeed, was missed)
+    big = 2 ** 70
+    cross = [(norm_float(float(big)), ("int", big)), (norm_float(float(big)), ("calc", "2^70", ("int", big))), (norm_float(float(big)), ("int", big + 1)),
+             (norm_float(float(2 ** 64)), ("int", 2 ** 64)), (norm_float(float(2 ** 53)), ("int", 2 ** 53)), (norm_float(float(2 ** 55)), ("int", 2 ** 55)),
+             (norm_float(-float(big)), ("int", -big)), (norm_float(0.5), ("calc", "1 rdiv 2", ("rat", 1, 2))), (norm_float(2.0), ("calc", "4 rdiv 2", ("int", 2))),
+             (("calc", "1 rdiv 3", ("rat", 1, 3)), ("int", 0)), (("calc", "2^70", ("int", big)), ("calc", "2^70+0", ("int", big)))]
+    for a, b in cross:
+        fixed.append((a, b)); fixed.append((b, a))
+        fixed.append((("cmp", "f", [("atom", "a"), ("cmp", "g", [a])]), ("cmp", "f", [("atom", "a"), ("cmp", "g", [b])])))
+        fixed.append((("cmp", "f", [V(0), b]), ("cmp", "f", [a, V(0)])))
     for a, b in fixed:
         ea, eb = expand(a), expand(b)
         calc = a[0] == "calc" or b[0] == "calc"
